@@ -5,6 +5,8 @@ package main
 // rendering byte-identical; PolicyList / PolicySet / Encoder→Decoder sequences), plus the
 // correspondence of the Lean model of the marshaller (ops marshal, marshal-parse) and of the value renderers
 // types.Value.MarshalCedar (op marshal-value: bytes up to set member order + the parser's reading of them).
+// c08_chains.go: arithmetic chains over overflow-sensitive operands + structural comparison of the reparsed tree;
+// c08_encoder.go: the streaming Encoder over failing writers.
 
 import (
 	"bytes"
@@ -111,15 +113,24 @@ func c08Oracle(p *ast.Policy, envs []vh.EnvEnc) (res c08Result) {
 			return
 		}
 	}
-	for _, e := range envs {
+	for ei, e := range envs {
 		for i := range p.Conditions {
 			if ok, x, y := sameEval(p.Conditions[i].Body, qa.Conditions[i].Body, e.Env); !ok {
-				res.Kind, res.Detail = "evaluates-differently", fmt.Sprintf("condition %d: %s vs %s", i, x, y)
+				res.Kind, res.Detail = "evaluates-differently", fmt.Sprintf("condition %d: %s vs %s (environment %d: %s)", i, x, y, ei, c08CtxShow(e.Env))
 				return
 			}
 		}
 		if ok, x, y := sameEval(eval.PolicyToNode(p).AsIsNode(), eval.PolicyToNode(qa).AsIsNode(), e.Env); !ok {
 			res.Kind, res.Detail = "policy-evaluates-differently", x+" vs "+y
+			return
+		}
+	}
+	// the reparsed tree is the original tree up to the documented normalisations (c08_chains.go): in particular the
+	// nesting of operators is the same (checked arithmetic is not associative: a regrouping changes the meaning on
+	// operands that the environments above may not happen to contain)
+	for i := range p.Conditions {
+		if d := c08StructDiff(p.Conditions[i].Body, qa.Conditions[i].Body); d != "" {
+			res.Kind, res.Detail = "structure-differs", fmt.Sprintf("condition %d %s", i, d)
 			return
 		}
 	}
@@ -177,7 +188,7 @@ var c08Texts = []string{
 }
 
 func runC08(c *vh.Ctx) {
-	c.Res.Rule = "policies from three sources (builder: every (parent kind, operand position, child kind) pairing over 42 node/value kinds, random syntactic trees, type-directed trees; text: hand-written corpus + reparsed policies; JSON: MarshalJSON→UnmarshalJSON), oracle per policy: MarshalCedar→UnmarshalCedar succeeds, effect/annotations/scope equal, every condition and the whole policy evaluate identically (value or error kind) on 8-10 environments, second MarshalCedar byte-identical; PolicyList/PolicySet/Encoder→Decoder sequences; model marshaller bytes+tokens and model parse∘marshal vs Go; model Value.MarshalCedar vs Go's on generated NodeValue contents (scalars, extension values at their boundaries, nested sets and records, colliding hashes, keys over every escape class): bytes exactly, sets after bringing Go's real output into ascending member-text order, and the model parser's reading of that text vs Go's (op marshal-value); distinct = distinct first rendering; non-trivial = policy has a condition with at least one operator"
+	c.Res.Rule = "policies from three sources (builder: every (parent kind, operand position, child kind) pairing over 42 node/value kinds, random syntactic trees, type-directed trees; text: hand-written corpus + reparsed policies; JSON: MarshalJSON→UnmarshalJSON), oracle per policy: MarshalCedar→UnmarshalCedar succeeds, effect/annotations/scope equal, every condition and the whole policy evaluate identically (value or error kind) on 8-10 environments, reparsed tree = original tree up to the documented normalisations (operator nesting included), second MarshalCedar byte-identical; arithmetic chains: every parenthesisation of +,-,* sequences of length 3 and 4, with unary minus, over overflow-sensitive literals and context attributes (operands chosen with an independent checked-arithmetic evaluator so that the tree differs from its mis-parenthesisations; own boundary environments), built as ASTs and from fully parenthesised text; PolicyList/PolicySet/Encoder→Decoder sequences; one Encoder over writers failing at the k-th Write (once, twice, for ever, short writes) with retry/skip histories: bytes accepted per Encode call = the policy's rendering (nil) or a prefix of it (error), accepted stream decodes to exactly the policies whose Encode returned nil; model marshaller bytes+tokens and model parse∘marshal vs Go; model Value.MarshalCedar vs Go's on generated NodeValue contents (scalars, extension values at their boundaries, nested sets and records, colliding hashes, keys over every escape class): bytes exactly, sets after bringing Go's real output into ascending member-text order, and the model parser's reading of that text vs Go's (op marshal-value); distinct = distinct first rendering; non-trivial = policy has a condition with at least one operator"
 	g := vh.NewGen(c.Rng)
 	// a world without the zero EntityUID (`::""` has no spelling in Cedar syntax)
 	w := &vh.World{}
@@ -189,14 +200,24 @@ func runC08(c *vh.Ctx) {
 	g.World = w
 	sg := &vh.SynGen{R: c.Rng, Values: true}
 	envs := g.EnvPool(c.N(8, 10))
+	// environments whose context attributes n, m, k, j (the long-typed attributes the generators use) hold
+	// overflow-sensitive values: 0, ±1, 2, MaxInt64, MinInt64 and neighbours
+	for i, n := 0, c.N(4, 8); i < n; i++ {
+		vs := make([]int64, 4)
+		for j := range vs {
+			vs[j] = c08Neighbours[c.Rng.Intn(len(c08Neighbours))]
+		}
+		envs = append(envs, c08CtxEnv(envs[i].Env, vs))
+	}
 
 	type srcPolicy struct {
-		src string
-		p   *ast.Policy
-		tag string
+		src  string
+		p    *ast.Policy
+		tag  string
+		envs []vh.EnvEnc // environments built for this policy, in addition to the pool
 	}
 	var all []srcPolicy
-	add := func(src, tag string, p *ast.Policy) { all = append(all, srcPolicy{src, p, tag}) }
+	add := func(src, tag string, p *ast.Policy) { all = append(all, srcPolicy{src: src, p: p, tag: tag}) }
 
 	// (1) builder: exhaustive pairings, random syntactic trees, type-directed trees
 	sg.Pairings(c.N(1, 4), func(parent vh.SynKind, slot int, child vh.SynKind, n ast.IsNode) {
@@ -236,6 +257,12 @@ func runC08(c *vh.Ctx) {
 	// corner: method-style extension call without receiver (programmatic only)
 	add("builder", "corner:method-no-receiver", sg.PolicyWith(ast.NodeTypeExtensionCall{Name: "isIpv4"}))
 
+	// arithmetic chains: every parenthesisation of operator sequences of length 3 and 4, with unary minus, over
+	// overflow-sensitive operands (literals and context attributes with their own environments) — c08_chains.go
+	for _, ch := range c08Chains(c, sg, envs) {
+		all = append(all, srcPolicy{src: ch.src, p: ch.p, tag: ch.tag, envs: ch.envs})
+	}
+
 	// (2) text
 	for _, t := range c08Texts {
 		var pol cedar.Policy
@@ -272,7 +299,7 @@ func runC08(c *vh.Ctx) {
 			c.Dist("json-codec-declined")
 			continue
 		}
-		add("json", all[i].tag, (*ast.Policy)(dec.AST()))
+		all = append(all, srcPolicy{src: "json", p: (*ast.Policy)(dec.AST()), tag: all[i].tag, envs: all[i].envs})
 	}
 	for _, js := range []string{
 		`{"effect":"permit","principal":{"op":"All"},"action":{"op":"All"},"resource":{"op":"All"},"conditions":[{"kind":"when","body":{"isIpv4":[]}}]}`,
@@ -291,7 +318,6 @@ func runC08(c *vh.Ctx) {
 
 	b := &vh.Batch{}
 	var fragLines []int
-	passes := func(p *ast.Policy) bool { return c08Oracle(p, envs).OK }
 	var good []*ast.Policy // policies that pass (used for the list / set / stream checks)
 	nText := 0
 	for idx := 0; idx < len(all); idx++ {
@@ -315,7 +341,12 @@ func runC08(c *vh.Ctx) {
 			}
 			continue
 		}
-		res := c08Oracle(sp.p, envs)
+		penvs := envs
+		if len(sp.envs) > 0 {
+			penvs = append(append([]vh.EnvEnc(nil), envs...), sp.envs...)
+		}
+		passes := func(p *ast.Policy) bool { return c08Oracle(p, penvs).OK }
+		res := c08Oracle(sp.p, penvs)
 		c.Res.OracleChecks++
 		key := res.Text
 		if key == "" {
@@ -330,7 +361,7 @@ func runC08(c *vh.Ctx) {
 			}
 		}
 		c.Count(key, nontrivial)
-		if strings.HasPrefix(sp.tag, "pair:") || strings.HasPrefix(sp.tag, "neg") {
+		if strings.HasPrefix(sp.tag, "pair:") || strings.HasPrefix(sp.tag, "neg") || strings.HasPrefix(sp.tag, "chain-") {
 			c.Dist("explicit-" + strings.SplitN(sp.tag, ":", 2)[0])
 		}
 		if res.OK {
@@ -344,17 +375,20 @@ func runC08(c *vh.Ctx) {
 			// a policy that was parsed from text is itself a new source: "parsed from text"
 			if sp.src == "builder" && nText < c.N(1500, 40000) && res.Q != nil {
 				nText++
-				all = append(all, srcPolicy{"text", res.Q, "reparsed"})
+				all = append(all, srcPolicy{src: "text", p: res.Q, tag: "reparsed", envs: sp.envs})
 			}
 		} else {
 			c.Dist("oracle:" + res.Kind)
+			if os.Getenv("C08_DEBUG_KIND") == res.Kind {
+				fmt.Fprintf(os.Stderr, "DEBUG %s [%s %s] %q\n  text: %q\n", res.Kind, sp.src, sp.tag, res.Detail, res.Text)
+			}
 			class, explained := vh.ClassifyByRepair(sp.p, c08Causes, passes)
 			if !explained {
 				class = "unexplained:" + res.Kind
 				if os.Getenv("C0708_DEBUG") != "" {
 					fmt.Fprintf(os.Stderr, "UNEXPLAINED %s %q\n  text: %q\n", res.Kind, res.Detail, res.Text)
 					vh.ClassifyTrace = func(cause string, changed bool, q *ast.Policy) {
-						r := c08Oracle(q, envs)
+						r := c08Oracle(q, penvs)
 						fmt.Fprintf(os.Stderr, "  after %s (changed=%v): ok=%v %s %q\n", cause, changed, r.OK, r.Kind, r.Detail)
 					}
 					vh.ClassifyByRepair(sp.p, c08Causes, passes)
@@ -382,6 +416,7 @@ func runC08(c *vh.Ctx) {
 	}
 
 	c08Containers(c, good)
+	c08EncoderFailures(c, good) // the Encoder over failing writers — c08_encoder.go
 	valueFragLines := c08Values(c, g, sg, b)
 
 	ds, model, err := c.Correspond(b)
